@@ -169,6 +169,60 @@ fn monitor_reorg_probe(a: &mut Vec<i128>) -> String {
 	res
 }
 
+/// htlc_timeout_probe <role> <delta>
+/// Two real nodes, one channel, one non-dust HTLC 0 -> 1 left unresolved. role 0: observe node 0 (the HTLC is
+/// outbound for it); role 1: node 1 claims (its monitor learns the preimage) but the fulfil never reaches node 0,
+/// observe node 1; role 2: node 1 without the preimage. Blocks are connected on the observed node one by one
+/// until its best height is `cltv_expiry + delta`. Output: 1 if that node's monitor has gone on chain for the
+/// HTLC by then (the manager reports ChannelClosed with reason HTLCsTimedOut), else 0; and best - cltv_expiry.
+fn htlc_timeout_probe(a: &mut Vec<i128>) -> String {
+	use lightning::chain::channelmonitor::Balance;
+	use lightning::events::{ClosureReason, Event};
+	let (role, delta) = (a[0], a[1]);
+	let chanmon_cfgs = create_chanmon_cfgs(2);
+	let node_cfgs = create_node_cfgs(2, &chanmon_cfgs);
+	let node_chanmgrs = create_node_chanmgrs(2, &node_cfgs, &[None, None]);
+	let nodes = create_network(2, &node_cfgs, &node_chanmgrs);
+	*nodes[0].connect_style.borrow_mut() = ConnectStyle::FullBlockViaListen;
+	*nodes[1].connect_style.borrow_mut() = ConnectStyle::FullBlockViaListen;
+	let chan = create_announced_chan_between_nodes(&nodes, 0, 1);
+	let chan_id = chan.2;
+	let (preimage, _hash, _, _) = route_payment(&nodes[0], &[&nodes[1]], 3_000_000);
+	let cltv = {
+		let mon = nodes[0].chain_monitor.chain_monitor.get_monitor(chan_id).unwrap();
+		let mut c = None;
+		for b in mon.get_claimable_balances() {
+			if let Balance::MaybeTimeoutClaimableHTLC { claimable_height, .. } = b {
+				c = Some(claimable_height);
+			}
+		}
+		c.expect("HTLC balance") as i128
+	};
+	let who = if role == 0 { 0 } else { 1 };
+	if role == 1 {
+		nodes[1].node.claim_funds(preimage);
+		let _ = nodes[1].node.get_and_clear_pending_msg_events(); // the update_fulfill_htlc is never delivered
+		let _ = nodes[1].node.get_and_clear_pending_events();
+	}
+	let target = cltv + delta;
+	let mut closed = false;
+	while (nodes[who].best_block_info().1 as i128) < target {
+		connect_blocks(&nodes[who], 1);
+		let _ = nodes[who].node.get_and_clear_pending_msg_events();
+		for ev in nodes[who].node.get_and_clear_pending_events() {
+			if let Event::ChannelClosed { reason: ClosureReason::HTLCsTimedOut { .. }, .. } = ev {
+				closed = true;
+			}
+		}
+		if closed {
+			break;
+		}
+	}
+	let best = nodes[who].best_block_info().1 as i128;
+	core::mem::forget(nodes);
+	format!("{} {}", closed as u8, best - cltv)
+}
+
 fn main() {
 	if std::env::var("ORACLE_DEBUG").is_err() { std::panic::set_hook(Box::new(|_| {})); }
 	let stdin = std::io::stdin();
@@ -187,6 +241,7 @@ fn main() {
 			"closing_probe" => closing_probe(&mut args),
 			"prune_probe" => prune_probe(&mut args),
 			"monitor_reorg_probe" => monitor_reorg_probe(&mut args),
+			"htlc_timeout_probe" => htlc_timeout_probe(&mut args),
 			_ => format!("error unknown function {}", name),
 		}));
 		match r {
